@@ -78,6 +78,10 @@ def gen_el_case(rng, very_long=False):
     N = rng.randint(6, 30) if not very_long else rng.choice([70001, 90000])
     chans = rng.sample(CHAN_POOL, rng.randint(1, 3))
     e, prog = build_element(rng, regs, SR, N, chans, waits=True, flags=True)
+    if rng.random() < 0.25 and not very_long:
+        # segment arguments given as zero-dimensional numpy arrays: mutable objects inside the argument tuples; a pulse
+        # shape that works in place on its arguments would change the stored blueprint while forging
+        prog = [("HArrayArgs",)] + prog
     cp = regs.E()
     prog.append(("ECopy", e, cp))
     pre = [("OEDescr", e), ("OEArrays", e, False)]
